@@ -33,6 +33,7 @@ package net
 // further reserved block is not an alarm).
 //@ func IsPrivateAddress
 //@   props C05 C18
+//@   params ip
 //@   loop 1 unroll 12
 //@   ensures[C05,private-blocks-recognised] cidr(ip, "10.0.0.0/8") || cidr(ip, "172.16.0.0/12") || cidr(ip, "192.168.0.0/16") \
 //@       || cidr(ip, "fc00::/7") || cidr(ip, "100.64.0.0/10") ==> result
@@ -40,11 +41,13 @@ package net
 
 //@ func RequirePublicIP
 //@   props C05 C18
+//@   params ip
 //@   ensures[C05,forbidden-rejected] forbidden(ip) ==> result != nil
 //@   ensures[C05,malformed-rejected] len(ip) != 4 && len(ip) != 16 ==> result != nil
 //@   ensures[C05,public-accepted] public(ip) ==> result == nil
 
 //@ func NewConnectionError
 //@   props C18
+//@   params status message cause
 //@   fresh
 //@   ensures result != nil && result.Status == status && result.Message == message && result.Cause == cause
